@@ -136,7 +136,18 @@ func drawC16Stmt(tp *tape.Tape, idx int, r *core.Result, defined *[]string) c16S
 		g := c16Globals[tp.Draw(len(c16Globals))]
 		return c16Stmt{[]string{"write(toa(" + g + ") + \"|\" + toa(#" + g + "))"}, []byte{'t'}, false, "reread-global"}
 	}
-	switch tp.Draw(16) {
+	switch tp.Draw(17) {
+	case 16: // a built-in used as a plain value (no call anywhere in the statement)
+		f := []string{"toa", "aton", "write", "fromto", "elems", "indices", "read"}[tp.Draw(7)]
+		g := []string{"toa", "aton", "fromto"}[tp.Draw(3)]
+		switch tp.Draw(3) {
+		case 0:
+			return c16Stmt{[]string{gv + " = " + f}, []byte{'t'}, true, "builtin-as-value"}
+		case 1:
+			return c16Stmt{[]string{"[" + f + ", " + g + ", 1]"}, []byte{'t'}, true, "builtin-as-value"}
+		default:
+			return c16Stmt{[]string{f + " == " + g}, []byte{'t'}, true, "builtin-as-value"}
+		}
 	case 14, 15: // a statement that ends in a runtime error: the session goes on in every mode
 		r.Inc("F1.failing_statement", 1)
 		f := []string{"[1, 2][7]", "10 / (3 - 3)", "\"s\" * 2", "nosuchfn(1)", "aton(\"zz\")", "1 + nosuchvar"}[tp.Draw(6)]
